@@ -85,7 +85,7 @@ func GenShape(t *rapid.T, p *Program) {
 		suf := 0
 		if i > 0 && p.N >= 3 && rapid.IntRange(0, nvOdds).Draw(t, "nonvoter") == 0 {
 			suf = 1
-		} else if i > 0 && p.N >= 3 && prof != "lease" && prof != "leaselong" && prof != "prevote" && prof != "leasejoin" && rapid.IntRange(0, 7).Draw(t, "late") == 0 {
+		} else if i > 0 && p.N >= 3 && prof != "lease" && prof != "leaselong" && prof != "prevote" && prof != "leasejoin" && rapid.IntRange(0, map[bool]int{true: 3, false: 7}[prof == "verify"]).Draw(t, "late") == 0 {
 			suf = 2 // joins later with an empty disk
 		}
 		p.Suffrage = append(p.Suffrage, suf)
@@ -245,6 +245,7 @@ func genAction(t *rapid.T, p *Program, ws []weighted) Action {
 	case "removeverify":
 		a.N = rapid.IntRange(0, 3).Draw(t, "who")
 		a.Arg = rapid.IntRange(0, 3).Draw(t, "slow")
+		a.Set = []int{rapid.IntRange(0, 1).Draw(t, "addInstead")}
 	case "succcrash":
 		a.N = rapid.IntRange(0, 1).Draw(t, "laggard")
 		a.Arg = rapid.IntRange(0, 3).Draw(t, "lagBy")
